@@ -380,6 +380,10 @@ def run(R):
         fam = [rp] + [c for c in web.bodies if c.path.startswith(rp.path + '::') and c.kind == 'closure']
         okr = any(any('k' in a and a['k'].get('fn', '').endswith('client_response') for a in t['args']) for fb in fam for bb, t in fb.calls(name='map'))
         R.check(okr, 'C17.R3', 'response-wrapped', site(rp), 'response.map(GrpcWebCall::client_response)')
+        # .. whatever the response says about itself: no other body wrapper is chosen (e.g. by content-type) next to client_response
+        other_wrap = [t['name'] for fb in fam for bb, t in fb.calls() if 'GrpcWebCall' in (t.get('fn') or '') and t.get('name') in ('request', 'response', 'client_request', 'new')]
+        other_wrap += [a['k']['fn'].rsplit('::', 1)[-1] for fb in fam for bb, t in fb.calls(name='map') for a in t['args'] if 'k' in a and 'GrpcWebCall' in (a['k'].get('fn') or '') and not a['k']['fn'].endswith('client_response')]
+        R.check(not other_wrap, 'C17.R3', 'response-always-client_response', site(rp), 'the response body is always wrapped with client_response (other GrpcWebCall constructors used: %r)' % other_wrap)
         def built_by(caller, t_):
             """the GrpcWebCall a constructor call builds, as {field: [values]}, with the constant arguments of this call site applied:
             only the constructor's paths consistent with them count (so new(.., Role::Client) is read like new_client(..))"""
